@@ -57,6 +57,8 @@ var registry = map[string]propDef{
 	"C10w": {"other", props.C10setwires},
 	"C19d": {"other", props.C19duality},
 	"C18g": {"other", props.C18guards},
+	"C18a": {"other", props.C18canon},
+	"C18o": {"other", props.C18points},
 	"C18e": {"other", props.LoopErrors},
 	"C16e": {"other", props.LoopErrors},
 	"C18w": {"other", props.C18widths},
